@@ -4,6 +4,7 @@ Model/Driver.lean — request dispatcher of the line protocol (pure: `List Strin
 import RdVerif.Model.Nuclide
 import RdVerif.Model.Entry
 import RdVerif.Model.Interval
+import RdVerif.Model.Fractions
 import RdVerif.Gen.Icrp107.Data
 
 namespace RdVerif.Driver
@@ -85,6 +86,10 @@ def decKey : List String → Option Key
 
 def handle (st : State) (req : List String) : State × String :=
   match req with
+  | "fracs" :: xs =>
+    match xs.mapM decRat with
+    | some l => (st, "ok " ++ " ".intercalate ((fracs l).map encRat))
+    | none => (st, "bad-request")
   | "set_names" :: ns =>
     match ns.mapM decCodes with
     | some l => ({ st with names := l }, s!"ok {l.length}")
